@@ -660,8 +660,8 @@ PROPS = {
     'C07': P(gen_c07, 'Proved in Coq (Props/C07.v): for EVERY history of push / pop / set_file_name / clear / extend / collect / join / with_file_name and every pair of component-equal start buffers, the typed-path buffer and the std::path::PathBuf transcription are component-equal after every step and every boolean result agrees (C07_history, by induction over the history); a non-empty push is the same byte function on both sides, also when std carries the extra trailing / left by an empty push (relation Rb, kept by push/clear/extend/collect). Every explored history is also run on the real std::path::PathBuf (pair.hist: booleans, component equality, byte equality after non-empty pushes). That pop/set_file_name keep the byte-level relation is decided on explored histories only (C07_bytes_partial).', NOTE_CORR),
     'C08': P(gen_c08, 'Proved in Coq for ALL pairs of byte strings: the model of WindowsEncoding::push equals the documented rule table Spec.join_spec (written over the grammar specification only), every history of pushes is the same fold of the table, empty b changes nothing, a prefixed b replaces a, the non-verbatim results are a (or its prefix) + optional separator + b, the verbatim step never lets a . or .. through (Props/C08.v: C08_bytes, C08_histories, C08_empty, C08_prefixed, C08_nonverbatim_bytes, C08_verbatim_step_clean; closed under the global context). join_spec itself is evaluated on the implementation output of every explored pair and push history (oracle_c08, oracle_hist). The component-level reading (a components followed by b components, a prefix followed by b for rooted b, bare drive without separator) is proved for all a without UNC/verbatim/device prefix (C08_comps_plain, C08_comps_disk, C08_comps_rooted_disk) and decided by the C10 oracle for the rest.', NOTE_CORR),
     'C09': P(gen_unary('c09'), 'parent / ancestors / pop: proved from the back-step lemma of the core parser; tied to the code for all families.', NOTE_CORR),
-    'C10': P(gen_pairs('c10'), 'Proved in Coq (Props/C10.v): for any double-ended component iterator whose components are determined by their bytes, helpers::iter_after decides exactly the leading-run / trailing-run relation (C10_abstract_front); at Unix, for all byte strings: starts_with iff q components are a leading run of p, ends_with mirror image, strip_prefix succeeds iff starts_with and its remainder re-parses to the rest, equal paths start/end with each other, a joined with a relative b starts with a and stripping yields what b adds. Windows components are not determined by their bytes: known finding D7; D10 and D15 are the two further Windows classes; everything else is decided for Windows by oracle_c10 (component relations over the grammar spec, join-back, join consistency) on every explored pair.', NOTE_CORR),
-    'C11': P(gen_unary('c11'), 'Proved in Coq for all Unix byte strings (Props/C11.v): the normalised path read back is the lexical fold Spec.nfold of the input components, it contains no . or .., has the same root/absoluteness, and normalising again returns the same bytes (C11_unix_fold, C11_unix_clean, C11_unix_root, C11_unix_idempotent); the model fold equals Spec.nfold for any component list (C11_fold_is_nfold). Windows: the same statements are evaluated by oracle_c11 on the implementation output of every explored well-formed path (C11_windows_partial: the byte-level re-push after a prefix is not proved).', NOTE_CORR),
+    'C10': P(gen_pairs('c10'), 'Proved in Coq (Props/C10.v): for any double-ended component iterator whose components are determined by their bytes, helpers::iter_after decides exactly the leading-run / trailing-run relation (C10_abstract_front); at Unix, for all byte strings: starts_with iff q components are a leading run of p, ends_with mirror image, strip_prefix succeeds iff starts_with and its remainder re-parses to the rest, equal paths start/end with each other, a joined with a relative b starts with a and stripping yields what b adds. For prefix-free Windows paths components are determined by their bytes and the same theorems hold over wspec (C10_windows_*_plain). With prefixes they are not: known finding D7; D10 and D15 are the two further Windows classes (refuted-witness lemmas); those paths are decided by oracle_c10 (component relations over the grammar spec, join-back, join consistency) on every explored pair.', NOTE_CORR),
+    'C11': P(gen_unary('c11'), 'Proved in Coq for all Unix byte strings (Props/C11.v): the normalised path read back is the lexical fold Spec.nfold of the input components, it contains no . or .., has the same root/absoluteness, and normalising again returns the same bytes (C11_unix_fold, C11_unix_clean, C11_unix_root, C11_unix_idempotent); the model fold equals Spec.nfold for any component list (C11_fold_is_nfold). Windows: the same three statements are proved for every prefix-free path whose names carry no drive look-alike (C11_windows_fold_plain, _idempotent_plain, _root_plain; C11_names_needed shows the hypothesis is necessary); paths with a prefix are decided by oracle_c11 on every explored well-formed path.', NOTE_CORR),
     'C12': P(gen_pairs('c12', second='names'), 'Proved in Coq for all inputs (Props/C12.v): file_name is the last component when it is a normal name and absent otherwise (both encodings); stem, a dot and the extension reproduce the name when an extension exists and the stem is the whole name otherwise; the four documented cases of the split; Unix replacement by a single valid name n: the components are the old ones with the last replaced by n, so the file name is n and the parent is the old parent, and without a file name the result is the old path joined with n. The Windows replacement is decided by oracle_c12 on every explored (path, name) pair.', NOTE_CORR),
     'C13': P(gen_c13, 'Proved in Coq for all Unix buffers and extensions (Props/C13.v): without a file name the call returns false and leaves the buffer untouched; with a file name it returns true and the bytes are everything before the name, the old stem and (for a non-empty extension) a dot and the extension, whatever separators or . segments trailed the name; read back, the components are the old ones with the last replaced by the new name, so file name = stem[.ext] and the parent is unchanged, for every separator-free extension outside the known class D13 (refuted-witness lemma C13_d13_refuted); the truncation point is a UTF-8 character boundary and the result valid UTF-8 (no panic in the String twin). Windows and byte-equality with std::path::PathBuf::set_extension are decided on every explored case (oracle_c13, pair.c13 against real std).', NOTE_CORR),
     'C14': P(gen_c14, 'Proved in Coq (Props/C14.v): utf8_valid is the RFC 3629 chain of steps; validity is preserved by concatenation and by cutting next to an ASCII byte; Unix push/extend keep buffers valid; file name, stem and extension of a valid Unix path are valid; the set_extension truncation point is a character boundary and its result valid (no String::truncate panic). The faithfulness half (same bytes and outcome as the byte API) is decided by running every UTF-8 family next to the byte family on every explored case (same.*), the harness re-validating every &str it receives; conversions succeed exactly on valid UTF-8 (c14c).', NOTE_CORR),
